@@ -471,6 +471,40 @@ fn gen_c12(rng: &mut Prng, seed: u64, thorough: bool) -> Trace {
         }
         steps.push(Step::Prove { node: 0, entry, secret, index, limit, id, ext, signal, path_len, dir_tweak, truncate, reader, writer });
     }
+    // the tree moves between requests (every membership API shape, batch removals included): a request served from the
+    // tree must follow it - prove, mutate, prove again for the same member
+    {
+        let taken: std::collections::BTreeSet<usize> = members.iter().map(|m| m.index).collect();
+        let low: Vec<usize> = (2..40usize).filter(|i| !taken.contains(i)).collect();
+        let (a, b, c) = (low[rng.usize_below(low.len())], low[rng.usize_below(low.len())], low[rng.usize_below(low.len())]);
+        for i in [a, b, c] {
+            log.push(LogEv::Set { index: i, value: fr_from_le(&rng.bytes(32)) });
+        }
+        let filled = log.len();
+        steps.push(Step::Apply { node: 0, upto: filled, shape: rng.below(3) as u8 });
+        let moves: Vec<LogEv> = vec![
+            LogEv::RemoveMany { indices: vec![a, b] },
+            LogEv::Set { index: a, value: fr_from_le(&rng.bytes(32)) },
+            LogEv::Remove { index: c },
+            LogEv::Range { start: 40 + rng.usize_below(20), values: (0..(1 + rng.usize_below(3))).map(|_| fr_from_le(&rng.bytes(32))).collect() },
+            LogEv::RemoveMany { indices: vec![c, a, b] },
+        ];
+        let m_idx = rng.usize_below(2);
+        let m = members[m_idx].clone();
+        let lim = limit_u64(&m);
+        let mk = |rng: &mut Prng| Step::Prove {
+            node: 0, entry: rng.below(2) as u8, secret: m.secret, index: m.index as u64, limit: m.limit, id: Fr::from(gen_id(rng, lim)), ext: gen_ext(rng),
+            signal: gen_signal(rng), path_len: -1, dir_tweak: -1, truncate: -1, reader: ReadPlan::clean(), writer: WritePlan::clean(),
+        };
+        steps.push(mk(rng));
+        let n_moves = 1 + rng.usize_below(3);
+        let first = rng.usize_below(moves.len());
+        for k in 0..n_moves {
+            log.push(moves[(first + k) % moves.len()].clone());
+            steps.push(Step::Apply { node: 0, upto: log.len(), shape: 1 + rng.below(2) as u8 });
+            steps.push(mk(rng));
+        }
+    }
     // a prover whose tree depth is not the circuit's (configuration mismatch): must be refused
     if rng.chance(1, 2) {
         let m = members[0].clone();
@@ -534,6 +568,19 @@ fn gen_c13(rng: &mut Prng, seed: u64, thorough: bool) -> Trace {
     // all-0xff fields (values >= p) and random non-canonical fields
     for f in 0..5usize {
         steps.push(Step::Deliver { msg: 0, node: 0, via: rng.below(3) as u8, alter: Alter::Field { f, bytes: vec![0xff; 32], note: "ff".into() }, roots: Roots::Exact, reader: ReadPlan::clean() });
+    }
+    // secret recovery from a message and a copy with one public value changed (same x and a different y among them: two
+    // shares that define no line), through every value-dependent and constant replacement
+    for f in 0..5usize {
+        for (bytes, note) in [(Vec::new(), "plus1".to_string()), (Vec::new(), "alias:1".to_string()), (vec![0u8; 32], "zero".to_string()),
+                              (vec![0xffu8; 32], "ff".to_string()), (fr_to_le32(&gen_fr(rng)).to_vec(), "random".to_string())] {
+            let alt = Alter::Field { f, bytes, note };
+            if rng.chance(1, 2) {
+                steps.push(Step::Recover { a: 0, b: 0, node: 0, alter_a: Alter::None, alter_b: alt });
+            } else {
+                steps.push(Step::Recover { a: 0, b: 0, node: 0, alter_a: alt, alter_b: Alter::None });
+            }
+        }
     }
     // malformed root sets
     for raw in [vec![0u8; 1], vec![0xffu8; 31], vec![0xffu8; 33], rng.bytes(64), rng.bytes(95)] {
